@@ -223,7 +223,14 @@ pub fn raw_package(wild: bool) -> impl Strategy<Value = RawPackage> {
         lead_any(),
         raw_header(true, wild, 6),
         prop::bool::weighted(0.3),
-        any::<[u8; 8]>(),
+        // arbitrary padding, or padding that looks like the start of a header / a lead
+        prop_oneof![
+            4 => any::<[u8; 8]>(),
+            1 => Just([0x8e, 0xad, 0xe8, 0x01, 0, 0, 0, 0]),
+            1 => Just([0x8e, 0xad, 0xe8, 0x01, 0x8e, 0xad, 0xe8, 0x01]),
+            1 => Just([0, 0x8e, 0xad, 0xe8, 0x01, 0, 0, 0]),
+            1 => Just([0xed, 0xab, 0xee, 0xdb, 3, 0, 0, 0]),
+        ],
         raw_header(false, wild, 14),
         payload_small(),
     )
